@@ -17,6 +17,7 @@ import (
 
 	"github.com/LindsayBradford/crem/internal/pkg/annealing/solution"
 	solutioncsv "github.com/LindsayBradford/crem/internal/pkg/annealing/solution/encoding/csv"
+	"github.com/LindsayBradford/crem/internal/pkg/model"
 	"github.com/LindsayBradford/crem/internal/pkg/model/models/catchment/actions"
 	"github.com/LindsayBradford/crem/internal/pkg/model/planningunit"
 	"github.com/LindsayBradford/crem/internal/pkg/model/variable"
@@ -33,7 +34,11 @@ func varIndexOf(name string) int {
 
 // encodeables builds the Solution of the walked model and returns the protocol text of its decision variables:
 //   <short name> <value> <k> <unit>=<value> …  |  …          (variables in the order the builder leaves them in)
-func (w *walker) encodeables(after string) {
+func (w *walker) encodeables(after string) { w.encodeablesOf(after, false) }
+
+// encodeablesOf: conformant = the state was reached by a conformant history (C01 applies: what is written must be what a fresh
+// model loaded with the same action set writes — same variables, same values, same listed units)
+func (w *walker) encodeablesOf(after string, conformant bool) {
 	cm := w.cm
 	var sol *solution.Solution
 	if p := protect(func() { sol = new(solution.SolutionBuilder).WithId("walk").ForModel(cm.m).Build() }); p != "" {
@@ -178,6 +183,59 @@ func (w *walker) encodeables(after string) {
 	ids := ""
 	for _, p := range sol.PlanningUnits {
 		ids += fmt.Sprintf(" %d", p)
+	}
+	if conformant && w.ref != nil {
+		flags := cm.flags()
+		var solRef *solution.Solution
+		if p := protect(func() {
+			// a freshly initialised model to which exactly this set is applied (Ref.at answers from its cache: done here)
+			w.ref.cm.m.Initialise(model.AsIs)
+			for i, b := range flags {
+				if b {
+					w.ref.cm.m.SetManagementAction(i, true)
+				}
+			}
+			solRef = new(solution.SolutionBuilder).WithId("walk").ForModel(w.ref.cm.m).Build()
+		}); p == "" && solRef != nil {
+			refVars := map[string]variable.EncodeableDecisionVariable{}
+			for _, dv := range solRef.DecisionVariables {
+				refVars[dv.Name] = dv
+			}
+			for _, dv := range sol.DecisionVariables {
+				rv, ok := refVars[dv.Name]
+				vi := varIndexOf(dv.Name)
+				if !ok || vi < 0 {
+					continue
+				}
+				diff := ""
+				if !near(rv.Value, dv.Value) {
+					diff = fmt.Sprintf("Value %v here, %v there", dv.Value, rv.Value)
+				}
+				units := func(l variable.PlanningUnitValues) map[planningunit.Id]float64 {
+					m := map[planningunit.Id]float64{}
+					for _, pv := range l {
+						m[pv.PlanningUnit] = pv.Value
+					}
+					return m
+				}
+				a, b := units(dv.ValuePerPlanningUnit), units(rv.ValuePerPlanningUnit)
+				for _, p := range cm.pus {
+					va, ina := a[p]
+					vb, inb := b[p]
+					if diff == "" && (ina != inb || !near(va, vb)) {
+						diff = fmt.Sprintf("unit %d: listed=%v value %v here, listed=%v value %v there", p, ina, va, inb, vb)
+					}
+				}
+				if diff == "" && len(dv.ValuePerPlanningUnit) != len(rv.ValuePerPlanningUnit) {
+					diff = fmt.Sprintf("%d entries here, %d there", len(dv.ValuePerPlanningUnit), len(rv.ValuePerPlanningUnit))
+				}
+				if diff != "" {
+					w.fail("C01:written-figures-history-independent", "catchment:written-figures-history-dependent:"+varShort[vi],
+						fmt.Sprintf("after %s: the solution built from this model and the one built from a fresh model with the same active set %s differ in %s: %s", after, bitsStr(flags), dv.Name, diff))
+					break
+				}
+			}
+		}
 	}
 	// canonical order of the line: by the variable's name as the model lists them (dn ic oc pn sed tn)
 	sort.SliceStable(parts, func(a, b int) bool { return parts[a] < parts[b] })
